@@ -30,6 +30,7 @@ for d in sorted(glob.glob(os.path.join(HERE, "seeded", "*"))):
         rows.append((os.path.basename(d), status, " ".join(hits)))
     finally:
         subprocess.run(["git", "-C", "/repo", "checkout", "--", "."], check=True)
+        subprocess.run(["git", "-C", "/repo", "clean", "-fdq", "optimum"], check=True)  # a seed may add files
 for name, status, hits in rows:
     print(f"{name:10s} {status:10s} {hits}")
 print(f"SEEDED detected={sum(1 for r in rows if r[1] == 'DETECTED')}/{len(rows)}")
